@@ -192,11 +192,11 @@ theorem GS.modProcCtl (h : GS fr df w) (p : Pid) (f : Proc → Proc) (hf : ∀ x
 syntax "gs_step" : tactic
 macro_rules | `(tactic| gs_step) => `(tactic| dsimp only)
 macro_rules | `(tactic| gs_step) => `(tactic| split)
-macro_rules | `(tactic| gs_step) => `(tactic| (guard_world_lit; with_reducible refine GS.setPqsSet ?_ _ _ (by obj_side)))
-macro_rules | `(tactic| gs_step) => `(tactic| (guard_world_lit; with_reducible refine GS.setOqsSet ?_ _ _ (by obj_side)))
-macro_rules | `(tactic| gs_step) => `(tactic| (guard_world_lit; with_reducible refine GS.setBufsSet ?_ _ _ (by obj_side)))
-macro_rules | `(tactic| gs_step) => `(tactic| (guard_world_lit; with_reducible refine GS.setPoolsSet ?_ _ _ (by obj_side)))
-macro_rules | `(tactic| gs_step) => `(tactic| (guard_world_lit; with_reducible refine GS.setResSet ?_ _ _ (by obj_side)))
+macro_rules | `(tactic| gs_step) => `(tactic| (guard_world_lit'; with_reducible refine GS.setPqsSet ?_ _ _ (by obj_side)))
+macro_rules | `(tactic| gs_step) => `(tactic| (guard_world_lit'; with_reducible refine GS.setOqsSet ?_ _ _ (by obj_side)))
+macro_rules | `(tactic| gs_step) => `(tactic| (guard_world_lit'; with_reducible refine GS.setBufsSet ?_ _ _ (by obj_side)))
+macro_rules | `(tactic| gs_step) => `(tactic| (guard_world_lit'; with_reducible refine GS.setPoolsSet ?_ _ _ (by obj_side)))
+macro_rules | `(tactic| gs_step) => `(tactic| (guard_world_lit'; with_reducible refine GS.setResSet ?_ _ _ (by obj_side)))
 macro_rules | `(tactic| gs_step) => `(tactic| (with_reducible refine GS.modProcCtl ?_ _ _ (fun _ => ⟨rfl, rfl⟩)))
 macro_rules | `(tactic| gs_step) => `(tactic| with_reducible apply GS.signal_mono)
 macro_rules | `(tactic| gs_step) => `(tactic| (with_reducible refine GS.sched_harmless ?_ _ _ _ _ _ (by decide)))
